@@ -44,9 +44,10 @@ import (
 
 // job: one implementation run
 type job struct {
-	C    string   `json:"c"`           // component
-	S    string   `json:"s"`           // input text
-	X    int      `json:"x,omitempty"` // extra integer argument
+	C    string   `json:"c"`             // component
+	S    string   `json:"s"`             // input text
+	X    int      `json:"x,omitempty"`   // extra integer argument
+	Rep  int      `json:"rep,omitempty"` // > 0: S is "PRE\x00UNIT\x00MID\x00CLOSE\x00POST", the input is PRE UNIT^Rep MID CLOSE^Rep POST
 	Kind string   `json:"-"`
 	Tags []string `json:"-"`
 }
@@ -185,6 +186,10 @@ func ptok(t pa.Token) string {
 		return fmt.Sprintf("(PDim %s %s %s)", vlib.Bool(t.IsInt()), vlib.Z(t.Int()), vlib.Bytes(t.Unit))
 	case pa.FunctionBlock:
 		return fmt.Sprintf("(PFunc %s %s)", vlib.Bytes(t.Name), ptoks(t.Arguments))
+	case pa.Hash:
+		return "(PHash " + vlib.Bytes(t.Value) + ")"
+	case pa.Percentage:
+		return "(PPercentage " + vlib.Bool(t.IsInt()) + ")"
 	case pa.Whitespace:
 		return "PWs"
 	case pa.Comment:
@@ -313,6 +318,35 @@ func runModelled(j job) result {
 		res.Coq = fmt.Sprintf("CPainter %s %d %d", vlib.Runes(s), ocOf(o, false), kind)
 		res.Obs = fmt.Sprintf("ref=%q valid=%v err=%v", ref, valid, isErr)
 		return fin(res, o, isErr)
+	case "colortok":
+		var tok pa.Token
+		var c pa.Color
+		o := render.Guard(func() {
+			tok = pa.ParseOneComponentValue(pa.Tokenize([]byte(s), true))
+			c = pa.ParseColor(tok)
+		})
+		t := "POther"
+		if tok != nil {
+			t = ptok(tok)
+		}
+		res.Coq = fmt.Sprintf("CColor %s %d %d", t, ocOf(o, false), c.Type)
+		res.Obs = fmt.Sprintf("%+v", c)
+		return fin(res, o, c.Type == 0)
+	case "media":
+		var toks []pa.Token
+		var media []string
+		var ok bool
+		o := render.Guard(func() {
+			toks = pa.Tokenize([]byte(s), false)
+			media, ok = tree.VerifC07ParseMediaQuery(toks)
+		})
+		items := make([]string, len(media))
+		for i, m := range media {
+			items[i] = vlib.Bytes(m)
+		}
+		res.Coq = fmt.Sprintf("CMedia %s %d %s", ptoks(toks), ocOf(o, !ok), vlib.List(items))
+		res.Obs = fmt.Sprintf("%q ok=%v", media, ok)
+		return fin(res, o, !ok)
 	case "fontweight":
 		var v int
 		o := render.Guard(func() { v = svg.VerifC07ParseFontWeight(s) })
@@ -339,6 +373,9 @@ func handle(in string) string {
 	var j job
 	if err := json.Unmarshal([]byte(in), &j); err != nil {
 		return `{"st":"panic","msg":"bad job"}`
+	}
+	if j.Rep > 0 {
+		j.S = expand(j.S, j.Rep)
 	}
 	var res result
 	if _, total := components[j.C]; total {
@@ -417,10 +454,13 @@ func main() {
 		var obj struct {
 			Case struct {
 				Kind string
+				Tags []string
 				Desc struct {
 					Component string
 					Input     string
 					Arg       int
+					Pattern   string
+					Rep       int
 				}
 			}
 		}
@@ -430,6 +470,14 @@ func main() {
 			os.Exit(2)
 		}
 		jobs = []job{{C: obj.Case.Desc.Component, S: obj.Case.Desc.Input, X: obj.Case.Desc.Arg, Kind: obj.Case.Kind, Tags: []string{"replay"}}}
+		if obj.Case.Desc.Rep > 0 {
+			jobs[0].S, jobs[0].Rep = obj.Case.Desc.Pattern, obj.Case.Desc.Rep
+			for _, t := range obj.Case.Tags {
+				if strings.HasPrefix(t, "deep-") {
+					jobs[0].Tags = append(jobs[0].Tags, t)
+				}
+			}
+		}
 	} else {
 		rng := vlib.NewRng(vlib.Seed())
 		jobs = loadCorpus(*corpus)
@@ -488,6 +536,10 @@ func main() {
 			coq = fmt.Sprintf("CTotal %d %d", comp, outcome)
 		}
 		desc := map[string]interface{}{"component": j.C, "input": j.S, "outcome": res.St}
+		if j.Rep > 0 {
+			desc["input"] = describe(j.S, j.Rep)
+			desc["pattern"], desc["rep"] = j.S, j.Rep
+		}
 		if j.X != 0 {
 			desc["arg"] = j.X
 		}
@@ -506,7 +558,7 @@ func main() {
 		}
 		stats[j.C+"/"+res.St]++
 		w.Add(vlib.Case{Kind: kind, Coq: coq, Desc: desc, Tags: tags, Nontrivial: len(j.S) > 0,
-			Key: j.C + "\x00" + j.S + "\x00" + fmt.Sprint(j.X)})
+			Key: j.C + "\x00" + j.S + "\x00" + fmt.Sprint(j.X, j.Rep)})
 	}
 	keys := make([]string, 0, len(stats))
 	for k := range stats {
@@ -517,6 +569,23 @@ func main() {
 		fmt.Printf("%s=%d ", k, stats[k])
 	}
 	fmt.Println()
+}
+
+// expand builds a deeply nested input from its compact description
+func expand(pattern string, rep int) string {
+	p := strings.Split(pattern, "\x00")
+	for len(p) < 5 {
+		p = append(p, "")
+	}
+	return p[0] + strings.Repeat(p[1], rep) + p[2] + strings.Repeat(p[3], rep) + p[4]
+}
+
+func describe(pattern string, rep int) string {
+	p := strings.Split(pattern, "\x00")
+	for len(p) < 5 {
+		p = append(p, "")
+	}
+	return fmt.Sprintf("%q + %q x %d + %q + %q x %d + %q", p[0], p[1], rep, p[2], p[3], rep, p[4])
 }
 
 func tail(s string, n int) string {
